@@ -334,16 +334,28 @@ impl Script {
     }
 }
 
+/// A command that defines neither form: both calls end in the library's documented default stubs.
+pub struct Stub;
+impl Command<Dev> for Stub {}
+
 impl Command<Dev> for Script {
-    fn event(&self, dev: &mut Dev, _c: &mut Context, mut params: Parameters) -> Result<()> {
+    fn event(&self, dev: &mut Dev, c: &mut Context, mut params: Parameters) -> Result<()> {
+        if self.no_event {
+            // form not defined by this command: the library's own default stub answers (no handler code runs,
+            // so no invocation is logged)
+            return Command::<Dev>::event(&Stub, dev, c, params);
+        }
         dev.log.push(Ev::Invoke { h: self.id, query: false });
-        let r = if self.no_event { Err(ErrorCode::UndefinedHeader.into()) } else { self.pulls(dev, &mut params) };
+        let r = self.pulls(dev, &mut params);
         dev.log.push(Ev::Return { h: self.id, err: r.err().map(|e| e.get_code()) });
         r
     }
-    fn query(&self, dev: &mut Dev, _c: &mut Context, mut params: Parameters, mut resp: ResponseUnit) -> Result<()> {
+    fn query(&self, dev: &mut Dev, c: &mut Context, mut params: Parameters, mut resp: ResponseUnit) -> Result<()> {
+        if self.no_query {
+            return Command::<Dev>::query(&Stub, dev, c, params, resp);
+        }
         dev.log.push(Ev::Invoke { h: self.id, query: true });
-        let r = if self.no_query {
+        let r = if false {
             Err(ErrorCode::UndefinedHeader.into())
         } else {
             self.pulls(dev, &mut params).and_then(|_| {
